@@ -66,8 +66,11 @@ class World:
         self.specs = specs
         self.devices = []
         self.defs = []
+        classes = []
         for spec in specs:
-            cls, defs = D.build_class(spec, handlers=handlers)
+            bi = spec.get("derive_from")
+            cls, defs = D.build_class(spec, handlers=handlers, base_cls=classes[bi] if bi is not None else None, base_defs=self.defs[bi] if bi is not None else None)
+            classes.append(cls)
             self.devices.append(cls(router=self.router))
             self.defs.append(defs)
         self._buffer_patch = None
